@@ -33,11 +33,11 @@ def shards(tier):
 
 
 def mech(chain, flows, accepted_pred):
-    kinds = sorted({k for k, _ in flows})
+    kinds = sorted({f[0] for f in flows})
     if accepted_pred:
-        inner = [chain[j - 1] if j > 0 else "body" for _, j in flows]
+        inner = [chain[f[1] - 1] if f[1] > 0 else "body" for f in flows]
         return "rejected-inside-loop:%s:under-%s" % ("+".join(kinds), "+".join(sorted(set(inner))))
-    bad = [(k, j) for k, j in flows if flow.loop_depth(chain, j) == 0]
+    bad = [(f[0], f[1]) for f in flows if flow.loop_depth(chain, f[1]) == 0]
     k, j = bad[0]
     closed_loop_before = any(c in flow.LOOPS for c in chain[j:])
     return "accepted-outside-loop:%s:%s" % (k, "after-a-closed-loop" if closed_loop_before else
@@ -47,11 +47,11 @@ def mech(chain, flows, accepted_pred):
 def check_case(R, obs, chain, flows):
     module = flow.build(chain, flows)
     src = print_module(module)
-    pred = all(flow.loop_depth(chain, j) > 0 for _, j in flows)
+    pred = all(flow.loop_depth(chain, f[1]) > 0 for f in flows)
     out = nslapi.compile_source(src)
     R.evaluations += 1
     R.count("programs")
-    if any(j > 0 for _, j in flows):
+    if any(f[1] > 0 for f in flows):
         R.nontriv(src)
     rep = {"sources": {"main": src}, "chain": list(chain), "flows": [list(f) for f in flows], "predicted": "accept" if pred else "reject"}
     if out.reject is not None and out.reject["stage"] == "parse":
@@ -60,7 +60,7 @@ def check_case(R, obs, chain, flows):
     if out.accepted != pred:
         R.violation(mech(chain, flows, pred),
                     "%s program with %s under chain %s" % ("rejected" if pred else "accepted",
-                                                           ", ".join("%s at level %d (loop depth %d)" % (k, j, flow.loop_depth(chain, j)) for k, j in flows),
+                                                           ", ".join("%s at level %d (loop depth %d)" % (f[0], f[1], flow.loop_depth(chain, f[1])) for f in flows),
                                                            "/".join(chain) or "<function body>"), dict(rep, gate=out.gate, reject=out.reject))
         return
     R.count("accepted_as_predicted" if pred else "rejected_as_predicted")
@@ -84,8 +84,13 @@ def run_shard(tier, seed, shard, n, R):
         check_case(R, obs, chain, flows)
         if i % 499 == shard:
             R.sample({"chain": chain, "flows": flows, "source": print_module(flow.build(chain, flows)),
-                      "predicted": "accept" if all(flow.loop_depth(chain, j) > 0 for _, j in flows) else "reject"})
+                      "predicted": "accept" if all(flow.loop_depth(chain, f[1]) > 0 for f in flows) else "reject"})
     R.flags["all_chains_to_depth_%d" % depth] = True
+    for i, (chain, flows) in enumerate(flow.paired_cases()):
+        if i % n == shard:
+            check_case(R, obs, chain, flows)
+            R.count("paired_cases")
+    R.flags["outer_flow_before_inner_loop_with_flow_all_kind_pairs"] = True
     nrand = 220 if tier == "quick" else 6000
     for _ in range(nrand):
         chain, flows = flow.random_case(rng, 2 if tier == "quick" else 3, 6)
